@@ -67,6 +67,7 @@ def setup_repo():
         import src.optimizer.validate_results as vr
         import src.scenarios.run_model_no_trade as rmnt
         import src.scenarios.run_scenario as rs
+        import src.scenarios.run_scenarios_from_yaml as rsfy
         import src.scenarios.scenarios as sc
     finally:
         sys.stdout = so
@@ -77,7 +78,7 @@ def setup_repo():
 
     m = types.SimpleNamespace(
         pulp=pulp, ap=ap, food=food, mad=mad, uc=uc, er=er, ir=ir, opt=opt, par=par,
-        vr=vr, rmnt=rmnt, rs=rs, sc=sc,
+        vr=vr, rmnt=rmnt, rs=rs, sc=sc, rsfy=rsfy,
     )
     _STATE["mods"] = m
     return m
